@@ -1053,6 +1053,18 @@ class Engine:
     def call(self, frame, callee, args):
         """args: already evaluated operand values"""
         self.stats['calls'] += 1
+        if re.match(r'^(?:move|copy) \(?\*?_\d+', callee):
+            # call through a value: a function pointer / function item / closure held in a local
+            from .mirparse import parse_operand
+            target = self.force(self.operand(frame, parse_operand(callee)))
+            while isinstance(target, (Ref, ValRef)):
+                target = self.force(self.read_place(target.frame, (target.local, target.projs)) if isinstance(target, Ref) else target.v)
+            if isinstance(target, FnItem):
+                return self.call(frame, target.name, args)
+            if isinstance(target, Closure):
+                from .lib import call_closure
+                return call_closure(self, frame, target, list(args))
+            raise Unsupported('indirect call of %r' % (target,))
         stub = self.stubs.get(callee)
         ncallee = None
         if stub is None and self.stubs:
